@@ -57,7 +57,8 @@ Grow == /\ st.part \in {"ah", "a85", "lzw"} /\ st.grow /\ Len(st.x) < SmallLen +
 LongLens(part) == IF part = "lzw" THEN LzwLens ELSE {37, 38, 39, 40, 41, 72, 73, 75, 76, 77, 78, 79, 80, 81, 117, 118, 156, 157}
 StartLong == /\ st.part = "start"
              /\ \E part \in Parts \cap {"ah", "a85", "lzw"} : \E n \in LongLens(part), seed \in {0, 1} :
-                  st' = [part |-> part, grow |-> FALSE,
+                  /\ (n > 300 => seed = 0)
+                  /\ st' = [part |-> part, grow |-> FALSE,
                          x |-> IF part = "a85" /\ seed = 1 THEN [i \in 1..n |-> IF (i \div 4) % 3 = 0 THEN 0 ELSE i % 256]
                                ELSE Lcg(seed * 1000 + n, n)]
 \* LZW: runs (KwKwK) as well
